@@ -7,5 +7,6 @@ import (
 	_ "verif/harness/c03"
 	_ "verif/harness/c06"
 	_ "verif/harness/c08"
+	_ "verif/harness/c16"
 	_ "verif/harness/c17"
 )
